@@ -242,20 +242,24 @@ Definition grammar := list (string * gexpr).
 Inductive value := VStr (s : string) | VNode (tag : string) (items : list (list string * value)).
 Definition item := (list string * value)%type.
 
-(* parser state: the character before the position (for Keyword) and the remaining input *)
-Record pst := { prev : ascii; rest : chars }.
-Definition advance (st : pst) (r : chars) : pst :=
-  (* r is a suffix of rest st *)
-  let used := firstn (length (rest st) - length r) (rest st) in
-  {| prev := last_or (prev st) used; rest := r |}.
-Definition pre (st : pst) : pst := advance st (skip_filler (rest st)).
+(* parser state: whether the character before the position is a keyword character (Keyword's look-behind) and the
+   remaining input.  After skipped filler that character is a blank, the '/' closing a comment or - after a //
+   comment - the input has ended: never a keyword character followed by more input. *)
+Record pst := { pk : bool; rest : chars }.
+Definition last_kw (d : bool) (l : chars) : bool := fold_left (fun _ c => is_kwchar c) l d.
+Definition moved (st : pst) (r : chars) : pst :=
+  if Nat.ltb (length r) (length (rest st)) then {| pk := false; rest := r |} else st.
+Definition pre (st : pst) : pst := moved st (skip_filler (rest st)).
+(* the state after consuming the prefix of s that precedes its suffix r *)
+Definition after (st : pst) (s r : chars) : pst :=
+  {| pk := last_kw (pk st) (firstn (length s - length r) s); rest := r |}.
 
 Inductive outcome := Fail | NoFuel | Match (items : list item) (st : pst).
 
 (* CharsNotIn does not skip white space (skipWhitespace = False), only the ignorable comments *)
 Definition pre_term (t : term) (st : pst) : pst :=
   match t with
-  | TNotIn _ => advance st (skip_ignorables (length (rest st)) (rest st))
+  | TNotIn _ => moved st (skip_ignorables (length (rest st)) (rest st))
   | _ => pre st
   end.
 
@@ -263,28 +267,30 @@ Definition run_term (t : term) (st0 : pst) : outcome :=
   let st := pre_term t st0 in
   let s := rest st in
   match t with
-  | TLit l => match prefix (chars_of l) s with Some r => Match [([], VStr l)] (advance st r) | None => Fail end
+  | TLit l => match prefix (chars_of l) s with
+              | Some r => Match [([], VStr l)] {| pk := last_kw (pk st) (chars_of l); rest := r |}
+              | None => Fail end
   | TKw k =>
     match prefix (chars_of k) s with
     | Some r =>
-      if andb (negb (is_kwchar (prev st))) (match r with c :: _ => negb (is_kwchar c) | [] => true end)
-      then Match [([], VStr k)] (advance st r) else Fail
+      if andb (negb (pk st)) (match r with c :: _ => negb (is_kwchar c) | [] => true end)
+      then Match [([], VStr k)] {| pk := last_kw (pk st) (chars_of k); rest := r |} else Fail
     | None => Fail
     end
   | TWord init body =>
     match s with
     | c :: r => if cmem c (chars_of init)
                 then let r' := span (fun x => cmem x (chars_of body)) r in
-                     Match [([], VStr (string_of (firstn (length s - length r') s)))] (advance st r')
+                     Match [([], VStr (string_of (firstn (length s - length r') s)))] (after st s r')
                 else Fail
     | [] => Fail
     end
   | TNotIn cs =>
     let r := span (fun x => negb (cmem x (chars_of cs))) s in
-    if Nat.ltb (length r) (length s) then Match [([], VStr (string_of (firstn (length s - length r) s)))] (advance st r) else Fail
+    if Nat.ltb (length r) (length s) then Match [([], VStr (string_of (firstn (length s - length r) s)))] (after st s r) else Fail
   | TDefault =>
     match default_arg s with
-    | Some (text, r) => Match [([], VStr (string_of text))] (advance st r)
+    | Some (text, r) => Match [([], VStr (string_of text))] (after st s r)
     | None => Fail
     end
   | TEnd => match s with [] => Match [] st | _ => Fail end
@@ -295,69 +301,83 @@ Definition lookup (g : grammar) (r : string) : option gexpr :=
 
 Definition add_name (n : string) (it : item) : item := (n :: fst it, snd it).
 
+(* the combinators, over the interpretation `rec` of sub-expressions *)
+Section Combinators.
+  Variable rec : gexpr -> pst -> outcome.
+
+  Fixpoint seq (l : list gexpr) (acc : list item) (st : pst) : outcome :=
+    match l with
+    | [] => Match acc st
+    | x :: r => match rec x st with
+                | Match its st' => seq r (acc ++ its) st'
+                | Fail => Fail
+                | NoFuel => NoFuel
+                end
+    end.
+
+  (* Or: every alternative is tried; the longest match wins, the first listed among equals *)
+  Fixpoint alt_longest (st : pst) (l : list gexpr) (best : outcome) : outcome :=
+    match l with
+    | [] => best
+    | x :: r =>
+      match rec x st with
+      | NoFuel => NoFuel
+      | Fail => alt_longest st r best
+      | Match its st' =>
+        match best with
+        | Match _ stb => if Nat.ltb (length (rest st')) (length (rest stb)) then alt_longest st r (Match its st')
+                         else alt_longest st r best
+        | _ => alt_longest st r (Match its st')
+        end
+      end
+    end.
+
+  (* MatchFirst *)
+  Fixpoint alt_first (st : pst) (l : list gexpr) : outcome :=
+    match l with
+    | [] => Fail
+    | x :: r => match rec x st with Fail => alt_first st r | o => o end
+    end.
+
+  (* ZeroOrMore; k bounds the number of iterations *)
+  Fixpoint star (k : nat) (x : gexpr) (acc : list item) (st : pst) : outcome :=
+    match k with
+    | O => NoFuel
+    | S k' => match rec x st with
+              | Match its st' => star k' x (acc ++ its) st'
+              | Fail => Match acc st
+              | NoFuel => NoFuel
+              end
+    end.
+End Combinators.
+
 Section Interp.
+  Variable rt : term -> pst -> outcome.     (* how a terminal is matched *)
   Variable g : grammar.
 
-  Fixpoint interp (fuel : nat) (e : gexpr) (st : pst) : outcome :=
+  Fixpoint interp_with (fuel : nat) (e : gexpr) (st : pst) : outcome :=
     match fuel with
     | O => NoFuel
     | S f =>
       match e with
-      | GTerm t => run_term t st
-      | GAnd l =>
-        (fix seq (l : list gexpr) (acc : list item) (st : pst) : outcome :=
-           match l with
-           | [] => Match acc st
-           | x :: r => match interp f x st with
-                       | Match its st' => seq r (acc ++ its) st'
-                       | Fail => Fail
-                       | NoFuel => NoFuel
-                       end
-           end) l [] st
-      | GOr l =>
-        (* every alternative is tried; the longest match wins, the first listed among equals *)
-        (fix alt (l : list gexpr) (best : outcome) : outcome :=
-           match l with
-           | [] => best
-           | x :: r =>
-             match interp f x st with
-             | NoFuel => NoFuel
-             | Fail => alt r best
-             | Match its st' =>
-               match best with
-               | Match _ stb => if Nat.ltb (length (rest st')) (length (rest stb)) then alt r (Match its st') else alt r best
-               | _ => alt r (Match its st')
-               end
-             end
-           end) l Fail
-      | GFirst l =>
-        (fix alt (l : list gexpr) : outcome :=
-           match l with
-           | [] => Fail
-           | x :: r => match interp f x st with Fail => alt r | o => o end
-           end) l
-      | GOpt x => match interp f x st with Fail => Match [] st | o => o end
-      | GStar x =>
-        (fix loop (k : nat) (acc : list item) (st : pst) : outcome :=
-           match k with
-           | O => NoFuel
-           | S k' => match interp f x st with
-                     | Match its st' => loop k' (acc ++ its) st'
-                     | Fail => Match acc st
-                     | NoFuel => NoFuel
-                     end
-           end) f [] st
-      | GSup x => match interp f x st with Match _ st' => Match [] st' | o => o end
-      | GName n x => match interp f x st with Match its st' => Match (map (add_name n) its) st' | o => o end
+      | GTerm t => rt t st
+      | GAnd l => seq (interp_with f) l [] st
+      | GOr l => alt_longest (interp_with f) st l Fail
+      | GFirst l => alt_first (interp_with f) st l
+      | GOpt x => match interp_with f x st with Fail => Match [] st | o => o end
+      | GStar x => star (interp_with f) f x [] st
+      | GSup x => match interp_with f x st with Match _ st' => Match [] st' | o => o end
+      | GName n x => match interp_with f x st with Match its st' => Match (map (add_name n) its) st' | o => o end
       | GRef r =>
         match lookup g r with
-        | Some body => match interp f body st with Match its st' => Match [([], VNode r its)] st' | o => o end
+        | Some body => match interp_with f body st with Match its st' => Match [([], VNode r its)] st' | o => o end
         | None => Fail
         end
       end
     end.
 End Interp.
+Definition interp (g : grammar) := interp_with run_term g.
 
 (* Module.parseString: tabs expanded, the Module rule applied at the start *)
 Definition parse_text (g : grammar) (fuel : nat) (text : string) : outcome :=
-  interp g fuel (GRef "Module") {| prev := "010"%char; rest := expandtabs (chars_of text) |}.
+  interp g fuel (GRef "Module") {| pk := false; rest := expandtabs (chars_of text) |}.
